@@ -153,13 +153,15 @@ def main():
     OPT = "RRTstar InformedRRTstar SORRTstar RRTsharp RRTXstatic BITstar ABITstar AITstar EITstar EIRMstar PRMstar LazyPRMstar FMT BFMT LBTRRT LazyLBTRRT SST TRRT CForest AnytimePathShortening".split()
     pjobs = []
     for pl_ in OPT:
-        for objn in ("length", "integral", "clearance"):
+        for objn in ("length", "integral", "work", "clearance"):
             for r in range(1 if quick else 6):
                 pjobs.append("CRUN %s %s %s %d %s %g %d %g %d" % (pl_, rng.choice(["R2", "SE2", "R3"]) if r else "R2", rng.choice(["boxes3", "gap", "circles5", "empty", "thin"]), rng.randint(0, 1), objn,
                                                                 rng.choice([0, 1.3, 2.0]), rng.randint(1, 10 ** 6), 0.25 if quick else 0.6, 3))
         # resumed at the incumbent: after every solve the threshold is set to the best stored cost and the solutions are cleared
         for objn in ("length", "clearance"):
             pjobs.append("CRUN %s R2 %s %d %s -1 %d %g 3" % (pl_, rng.choice(["empty", "boxes3", "gap"]), rng.randint(0, 1), objn, rng.randint(1, 10 ** 6), 0.15 if quick else 0.4))
+    pjobs.append("CRUN RRTstar R2 empty 1 work 0 7 0.3 3")      # regression probe of the repaired defect (isSymmetric of the mechanical-work objective)
+    pjobs.append("CRUN PRMstar R2 empty 1 work 0 7 0.3 3")      # fixed probe of the known finding C04-prm-undirected-roadmap-direction-dependent-cost
     def run_job(j):
         try:
             r = subprocess.run([cdrv] + j.split(), capture_output=True, text=True, timeout=120); return j, r.returncode, r.stdout
@@ -208,7 +210,8 @@ def main():
                 if s_["hasopt"]:
                     tol = max(2000, abs(s_["true"]) // 10 ** 6)
                     better = (s_["stored"] < s_["true"] - tol) if kind == 1 else (s_["stored"] > s_["true"] + tol)
-                    if better: ppred(j, "stored cost %.9f is better than the true cost %.9f of the path under the objective (%s)" % (s_["stored"] / 1e9, s_["true"] / 1e9, objn))
+                    if better: ppred(j, "stored cost %.9f is better than the true cost %.9f of the path under the objective (%s)" % (s_["stored"] / 1e9, s_["true"] / 1e9, objn),
+                                     "C04-prm-undirected-roadmap-direction-dependent-cost" if (objn == "work" and pl_ in ("PRMstar", "LazyPRMstar")) else None)
                     if not s_["approx"] and bool(s_["opt"]) != bool(s_["sat"]): ppred(j, "solution marked optimized=%d but its stored cost %s the objective's threshold" % (s_["opt"], "satisfies" if s_["sat"] else "does not satisfy"))
                 if kind == 1 and s_["lower"] > -10 ** 17 and s_["true"] < s_["lower"] - max(2000, s_["lower"] // 10 ** 6):
                     ppred(j, "true cost %.9f is below the admissible lower bound %.9f (%s)" % (s_["true"] / 1e9, s_["lower"] / 1e9, objn))
@@ -264,7 +267,7 @@ def main():
             sp = SPACES[spn]
             ptl = "[%s]" % "; ".join("(%s, %s)" % (sp.state_coq(pv), cq(cv)) for pv, cv in zip(pts, sc))
             third = ("mm_path FlA (fun a b => PrimFloat.ltb b a) infinity [%s]" % "; ".join("[%s]" % "; ".join(cq(v) for v in ev) for ev in mm)) if mm is not None else "0"
-            items.append("[cost_length FlA _ (distance FlA %s) %s; cost_integral FlA _ (distance FlA %s) %s; %s]" % (sp.coq(), ptl, sp.coq(), ptl, third))
+            items.append("[cost_length FlA _ (distance FlA %s) %s; cost_integral FlA _ (distance FlA %s) %s; %s; cost_work FlA _ (distance FlA %s) %s %s]" % (sp.coq(), ptl, sp.coq(), ptl, third, sp.coq(), cq(0.05), ptl))
         src += ";\n".join(items) + "].\n"
         path = os.path.join(c.outdir, "cases_cost_%d.v" % a)
         open(path, "w").write(src)
@@ -276,8 +279,8 @@ def main():
         for (j, k, si_, spn, objn, pts, sc, mm, tb), res in zip(part, parse_nested(o5)):
             ncost += 1
             def bits_(x): return "%016x" % struct.unpack("<Q", struct.pack("<d", x))[0]
-            mlen, mint, mmm = res
-            want = {"length": mlen, "integral": mint, "clearance": mmm}[objn]
+            mlen, mint, mmm, mwork = res
+            want = {"length": mlen, "integral": mint, "clearance": mmm, "work": mwork}[objn]
             ok = bits_(mlen) == tb[1] and bits_(want) == tb[0]
             if len(pts) == 0: ok = True
             if not ok:
@@ -287,7 +290,7 @@ def main():
     c.cov.update({"path_costs_recomputed_by_model": ncost, "path_cost_disagreements": ncost_bad})
     c.cov.update({"planner_runs": len(pjobs), "planner_histogram": dict(pstats), "planner_failures_by_kind": dict(pfail)})
     c.cov["evaluations"] += len(pjobs) * 3
-    c.assumptions[:] = [a for a in c.assumptions if "planner-level clauses" not in a] + ["planner-level clauses are checked per run on 20 optimizing planners x {path length, state-cost integral, max-min clearance} x 3 consecutive solves, not proved; weighted multi-objective and mechanical work are not exercised"]
+    c.assumptions[:] = [a for a in c.assumptions if "planner-level clauses" not in a] + ["planner-level clauses are checked per run on 20 optimizing planners x {path length, state-cost integral, mechanical work over a sloped potential (the direction-dependent one), max-min clearance} x 3 consecutive solves, not proved; the weighted multi-objective is not exercised"]
     if first_pred and first_pred[0] == "PLANNER":
         c.violation("implementation violates C04: " + first_pred[1], "# C04 replay: build/harness/cost_driver <the line>\n" + first_pred[1].split(" :: ")[0] + "\n"); c.finish()
     if first_pred:
